@@ -271,11 +271,18 @@ fn bump_cap(cap: &mut plonky2::hash::merkle_tree::MerkleCap<F, <C as GenericConf
 /// Applies the value tamper of `class` at a seeded position; None = the class is empty for this
 /// proof shape (no reduction layers, no lookups, zero-length path, ...).
 pub fn tamper(p: &mut PW, class: &str, r: &mut ChaCha8Rng) -> Option<Value> {
+    let (_, arg) = split_class(class);
+    // layer argument of the model (0 .. NL-1, NL = min(layers, 3)): the last model layer is the proof's last layer
+    let nreal = p.proof.opening_proof.commit_phase_merkle_caps.len();
+    tamper_at(p, class, arg.map(|l| model_layer(l, nreal)), r)
+}
+/// as `tamper`, with the REAL layer index given for the layer-indexed classes
+pub fn tamper_at(p: &mut PW, class: &str, real_layer: Option<usize>, r: &mut ChaCha8Rng) -> Option<Value> {
     let (base, arg) = split_class(class);
     let fp = &mut p.proof.opening_proof;
-    // layer argument of the model (0 .. NL-1, NL = min(layers, 3)): the last model layer is the proof's last layer
-    let nreal = fp.commit_phase_merkle_caps.len();
-    let arg = if matches!(base, "commit_cap" | "step_eval" | "step_path") { arg.map(|l| model_layer(l, nreal)) } else { arg };
+    let arg = if matches!(base, "commit_cap" | "step_eval" | "step_path") { real_layer } else { arg };
+    let nrounds = fp.query_round_proofs.len();
+    let round = if nrounds > 0 { round_of(class, nrounds, r) } else { 0 };
     match base {
         "pis" => {
             if p.public_inputs.is_empty() {
@@ -318,7 +325,7 @@ pub fn tamper(p: &mut PW, class: &str, r: &mut ChaCha8Rng) -> Option<Value> {
             if fp.query_round_proofs.is_empty() {
                 return None;
             }
-            let q = r.gen_range(0..fp.query_round_proofs.len());
+            let q = round;
             let eps = &mut fp.query_round_proofs[q].initial_trees_proof.evals_proofs;
             let o = arg.unwrap_or_else(|| r.gen_range(0..eps.len()));
             if o >= eps.len() {
@@ -345,7 +352,7 @@ pub fn tamper(p: &mut PW, class: &str, r: &mut ChaCha8Rng) -> Option<Value> {
             if fp.query_round_proofs.is_empty() || fp.query_round_proofs[0].steps.is_empty() {
                 return None;
             }
-            let q = r.gen_range(0..fp.query_round_proofs.len());
+            let q = round;
             let steps = &mut fp.query_round_proofs[q].steps;
             let l = arg.unwrap_or_else(|| r.gen_range(0..steps.len()));
             if l >= steps.len() {
@@ -371,9 +378,21 @@ pub fn tamper(p: &mut PW, class: &str, r: &mut ChaCha8Rng) -> Option<Value> {
 }
 
 pub fn split_class(class: &str) -> (&str, Option<usize>) {
+    let class = class.strip_suffix("@last").unwrap_or(class);
     match class.split_once(':') {
         Some((b, a)) => (b, a.parse::<usize>().ok()),
         None => (class, None),
+    }
+}
+/// `kind:idx@last` = the last query round, `kind:idx` of a sibling class = the first one
+pub fn round_of(class: &str, nrounds: usize, r: &mut ChaCha8Rng) -> usize {
+    let base = split_class(class).0;
+    if class.ends_with("@last") {
+        nrounds - 1
+    } else if matches!(base, "init_path" | "step_path") {
+        0
+    } else {
+        r.gen_range(0..nrounds)
     }
 }
 /// model layer l of a model with NL = min(nreal, 3) layers -> layer of the real proof
@@ -451,6 +470,24 @@ pub fn knobs_for(class: &str, nch: usize, nlayers: usize, r: &mut ChaCha8Rng) ->
         _ => return None,
     }
     Some(k)
+}
+
+/// the grinding response the verifier derives for `p`
+pub fn pow_response(p: &PW, vd: &VD, common: &CommonCircuitData<F, D>) -> Option<u64> {
+    p.get_challenges(p.get_public_inputs_hash(), &vd.circuit_digest, common).ok().map(|c| c.fri_challenges.fri_pow_response.to_canonical_u64())
+}
+/// A witness whose response has EXACTLY `zeros` leading zeros.  The transcript before the witness does not depend
+/// on it (deterministic prover, no zero-knowledge), so candidates are tried on the honest proof by hashing only.
+pub fn find_pow_witness(honest: &PW, vd: &VD, common: &CommonCircuitData<F, D>, zeros: u32, budget: usize, r: &mut ChaCha8Rng) -> Option<u64> {
+    let mut q = honest.clone();
+    for _ in 0..budget {
+        let w = r.gen_range(0..GOLDILOCKS);
+        q.proof.opening_proof.pow_witness = F::from_canonical_u64(w);
+        if pow_response(&q, vd, common)?.leading_zeros() == zeros {
+            return Some(w);
+        }
+    }
+    None
 }
 
 // ------------------------------------------------------------------------------------------
